@@ -70,10 +70,14 @@ def run(corrupt=None):
     for kind in ("inconsistent", "exception"):
         for it in res[kind][:100]:
             ck.violation("C07|%s|%s" % (kind, it["act"]["name"]), "%s after %s (%s): %s" % (kind, json.dumps(it["act"]), it.get("restore"), it["error"]), it)
-    for it in res["mismatch"][:5]:
-        # a projected target that is not a spec successor: structural deviation (well-formed but different from every
-        # allowed result, e.g. a clone attached to the wrong parent or data moved to another clone)
-        ck.violation("C07|edge_not_in_spec|%s" % it["act"]["name"], "result of %s is not one of the specified results" % json.dumps(it["act"]), it)
+    for it in res["mismatch"][:8]:
+        # a projected target that is not a spec successor.  If only clone names / bookkeeping differ (same clades and
+        # outliers as a specified result) the spec's naming discipline has drifted - not a violation of this property;
+        # a different forest (a clone under the wrong parent, data in another clone) is.
+        if it.get("names_only"):
+            ck.model_drift("result of %s equals a specified result up to clone names" % json.dumps(it["act"]))
+        else:
+            ck.violation("C07|edge_not_in_spec|%s" % it["act"]["name"], "result of %s is not one of the specified results" % json.dumps(it["act"]), it)
     ck.extra["coexploration"] = {k: res[k] for k in ("edges", "states", "spec_states", "spec_edges", "max_depth")}
     for i in range(res["states"]):
         ck.nontrivial("adt:%d" % i)
@@ -81,8 +85,16 @@ def run(corrupt=None):
     for kind_, it in issues[:100]:
         if kind_ in ("inconsistent", "exception"):
             ck.violation("C07|%s|%s" % (kind_, it["act"]["name"]), "%s in an in-place walk after %s: %s" % (kind_, json.dumps(it["act"]), it["error"]), it)
-    for k in unmatched[:5]:
-        ck.violation("C07|edge_not_in_spec|%s" % edges[k - 1]["act"]["name"], "recorded step is not a TreeADT step: %s" % json.dumps(edges[k - 1]["act"]), {"edge": edges[k - 1]})
+    if unmatched:
+        # re-validate the rejected steps comparing targets as abstract forests only: name-only differences are drift
+        rej = [edges[k - 1] for k in unmatched]
+        r2, un2 = treeadt.validate_edges("c07_walk_abs", rej, [0, 1, 2, 3], abstract_only=True)
+        hard = {id(rej[k - 1]) for k in un2}
+        for e in rej[:8]:
+            if id(e) in hard:
+                ck.violation("C07|edge_not_in_spec|%s" % e["act"]["name"], "recorded step is not a TreeADT step: %s" % json.dumps(e["act"]), {"edge": e})
+            else:
+                ck.model_drift("recorded step %s matches the specification up to clone names" % json.dumps(e["act"]))
     # --- every output of every sampler on every RNG path
     table, _ = c01.get_table(seed, n=3)
     base = dict(dist="table", alpha=1.0, np=2, thr=0.5)
